@@ -178,6 +178,48 @@ func refIdentity(method, host, target string) string {
 	return method + " " + h + " " + np + " ?" + query
 }
 
+// The statement is silent on two things: whether "%7C" and "|" name the same resource, and whether
+// an encoded dot ("%2e") counts as a dot for dot-segment removal. Each combination of answers is an
+// admissible reading; a verdict needs the two requests to be distinct (or the same) under every one.
+func readings(method, host, target string) [4]string {
+	var out [4]string
+	for i := 0; i < 4; i++ {
+		t := target
+		pth, q, hasQ := strings.Cut(strings.TrimSuffix(t, "?"), "?")
+		if i&1 != 0 {
+			pth = strings.ReplaceAll(strings.ReplaceAll(pth, "%7C", "|"), "%7c", "|")
+			q = strings.ReplaceAll(strings.ReplaceAll(q, "%7C", "|"), "%7c", "|")
+		}
+		if i&2 != 0 {
+			pth = strings.ReplaceAll(strings.ReplaceAll(pth, "%2e", "."), "%2E", ".")
+		}
+		if hasQ {
+			pth += "?" + q
+		}
+		out[i] = refIdentity(method, host, pth)
+	}
+	return out
+}
+
+// distinctUnderEveryReading / sameUnderEveryReading compare two requests reading by reading.
+func distinctUnderEveryReading(a, b [4]string) bool {
+	for i := range a {
+		if a[i] == b[i] {
+			return false
+		}
+	}
+	return true
+}
+
+func sameUnderEveryReading(a, b [4]string) bool {
+	for i := range a {
+		if a[i] != b[i] {
+			return false
+		}
+	}
+	return true
+}
+
 // silentNorm removes the differences about which the statement is silent.
 func silentNorm(t string) string {
 	t = strings.TrimSuffix(t, "?")
@@ -208,6 +250,7 @@ func judgeKeys(w *proxyWorld, res *Result) {
 	type seen struct {
 		ex *Exch
 		id string
+		rd [4]string
 	}
 	var prev []seen
 	for _, ex := range w.exch {
@@ -220,18 +263,19 @@ func judgeKeys(w *proxyWorld, res *Result) {
 			host = ex.Req.HostHdr
 		}
 		id := refIdentity(ex.Method, host, ex.Req.Target)
+		rd := readings(ex.Method, host, ex.Req.Target)
 		desc := fmt.Sprintf("%s %s%s", ex.Method, host, ex.Req.Target)
 		if !ex.Complete {
 			// an unanswered request is C16's business (e.g. an invalid percent-escape on a tunnel)
 			res.Probes["unanswered"]++
-			prev = append(prev, seen{ex, id})
+			prev = append(prev, seen{ex, id, rd})
 			continue
 		}
 		o := w.attrib(ex)
 		cons := w.contacts(ex)
 		if o != nil {
 			oid := refIdentity(o.Method, o.Host, o.URI)
-			if oid != id && refIdentity(o.Method, o.Host, silentNorm(o.URI)) != refIdentity(ex.Method, host, silentNorm(ex.Req.Target)) {
+			if oid != id && distinctUnderEveryReading(readings(o.Method, o.Host, o.URI), rd) {
 				// answered with the response to a request naming another resource
 				rel := relationOf(o.URI, ex.Req.Target, o.Method != ex.Method, !strings.EqualFold(o.Host, host))
 				if pth, _, _ := strings.Cut(ex.Req.Target, "?"); strings.Contains(pth, "|") && strings.Contains(strings.ToUpper(ex.Req.Target+o.URI), "%2F") {
@@ -245,7 +289,7 @@ func judgeKeys(w *proxyWorld, res *Result) {
 		// C02.b: same identity as an earlier cacheable GET => served from that entry
 		if ex.Method == "GET" {
 			for _, pv := range prev {
-				if pv.id == id && pv.ex.Method == "GET" && pv.ex.Complete && pv.ex.Status == 200 {
+				if pv.id == id && sameUnderEveryReading(pv.rd, rd) && pv.ex.Method == "GET" && pv.ex.Complete && pv.ex.Status == 200 {
 					phost := w.p.Res[pv.ex.Req.Res].Host
 					if pv.ex.Req.HostHdr != "" {
 						phost = pv.ex.Req.HostHdr
@@ -268,7 +312,7 @@ func judgeKeys(w *proxyWorld, res *Result) {
 				}
 			}
 		}
-		prev = append(prev, seen{ex, id})
+		prev = append(prev, seen{ex, id, rd})
 	}
 	res.Nontrivial = true
 }
